@@ -180,6 +180,7 @@ type v06World struct {
 	fail      string
 	ended     bool
 	hasLogger bool
+	smallWin  int // 0 = default QUIC flow-control windows, else stream receive window in bytes (connection window = 2x) on both sides
 	hasEL     bool // an EventLogger is configured (fake with a yield point in TCPError)
 	elPark    *v06ELPark
 	fastOpen  bool
@@ -335,6 +336,8 @@ type v06Conn struct {
 	sClosed     bool // server closed its end of the target conn
 	terminated  bool // the harness started a terminal event on this conn
 
+	tStall       bool // the target stopped taking bytes: the server's Write on the target conn blocks
+	rStall       bool // the client application stopped reading for a moment
 	slowDial     bool // Outbound.TCP parks until the harness releases it
 	dialParked   bool
 	dialReleased bool
@@ -419,6 +422,12 @@ func (s *v06SrvEnd) Write(p []byte) (int, error) {
 	exp := make([]byte, len(p))
 	w.mu.Lock()
 	defer w.mu.Unlock()
+	if c.tStall && !c.sClosed {
+		w.evLocked("srvWrite", c.label, int64(len(p)), c.tRecv, "BLOCKED (target not taking bytes)")
+		for c.tStall && !c.sClosed && !w.ended {
+			w.cond.Wait()
+		}
+	}
 	if c.sClosed {
 		w.evLocked("srvWrite", c.label, int64(len(p)), c.tRecv, "after-close")
 		return 0, io.ErrClosedPipe
@@ -692,6 +701,12 @@ func (w *v06World) start() {
 		Authenticator: &v06Auth{w},
 		DisableUDP:    true,
 	}
+	ccfgQ := client.QUICConfig{}
+	if w.smallWin > 0 {
+		sw, cw := uint64(w.smallWin), uint64(2*w.smallWin)
+		cfg.QUICConfig = QUICConfig{InitialStreamReceiveWindow: sw, MaxStreamReceiveWindow: sw, InitialConnectionReceiveWindow: cw, MaxConnectionReceiveWindow: cw}
+		ccfgQ = client.QUICConfig{InitialStreamReceiveWindow: sw, MaxStreamReceiveWindow: sw, InitialConnectionReceiveWindow: cw, MaxConnectionReceiveWindow: cw}
+	}
 	if w.hasLogger {
 		cfg.TrafficLogger = &v06Logger{w}
 	}
@@ -721,6 +736,7 @@ func (w *v06World) start() {
 					Auth:       u.auth,
 					TLSConfig:  client.TLSConfig{InsecureSkipVerify: true},
 					FastOpen:   w.fastOpen,
+					QUICConfig: ccfgQ,
 				})
 				if err == nil {
 					break
@@ -773,6 +789,7 @@ func (w *v06World) stop() {
 	w.mu.Lock()
 	for _, c := range conns {
 		c.sClosed = true
+		c.tStall, c.rStall = false, false
 	}
 	w.cond.Broadcast()
 	w.mu.Unlock()
